@@ -23,7 +23,8 @@ import (
 // with stub children inside a synctest bubble); every history is re-run for
 // every value vector of the randIntN seam during its last event.
 
-var c35bEps = []string{"e1", "e2", "e3"}
+var c35bAllEps = []string{"e1", "e2", "e3", "e4"}
+var c35bEps = c35bAllEps[:3] // thorough tier: all 4
 var c35bStates = []connectivity.State{connectivity.Connecting, connectivity.Ready, connectivity.TransientFailure, connectivity.Idle}
 
 func c35bSt(s connectivity.State) string {
@@ -439,12 +440,13 @@ type c35bOp struct {
 
 func c35bOps() []c35bOp {
 	var ops []c35bOp
-	for mask := 1; mask <= 8; mask++ {
+	full := 1<<len(c35bEps) - 1
+	for mask := 1; mask <= full+1; mask++ {
 		set := map[string]bool{}
 		var names []string
 		var eps []resolver.Endpoint
 		for i, e := range c35bEps {
-			if mask&7&(1<<i) != 0 {
+			if mask&full&(1<<i) != 0 {
 				set[e] = true
 				names = append(names, e)
 				eps = append(eps, resolver.Endpoint{Addresses: []resolver.Address{{Addr: e}}})
@@ -584,12 +586,14 @@ func TestVerif_C35_EndpointSharding(t *testing.T) {
 	const P = "C35"
 	r := vk.Start(t, "c35b_endpointsharding", "model_checking", P)
 	defer r.Finish()
-	r.Rule(P, "leg b (balancer/endpointsharding): breadth-first over ALL event histories up to the depth bound on a fresh real endpointsharding balancer (stub child policies, fake recording channel, synctest bubble run to quiescence after every event). Alphabet: resolver update with every subset of 3 endpoints (incl. the empty list), child(e).UpdateState(CONNECTING|READY|TRANSIENT_FAILURE|IDLE) with a fresh tagged picker for the most recent child of each endpoint (also after that child was removed), resolver error, ExitIdle. Two scenarios: DisableAutoReconnect (IDLE children stay IDLE) and automatic reconnect (an IDLE child is told to ExitIdle on a goroutine and reports CONNECTING). Every history is re-run for EVERY vector of randIntN values requested during its last event (endpoint rotation and the start index of every picker built). At every state the balancer pushes to the channel: state = precedence rule on the reference multiset; then k = 3n picks on the new picker (n = children in the aggregate state): every pick is delegated to the latest picker of such a child and in EVERY window of consecutive picks each such child is used ⌊k/n⌋ or ⌈k/n⌉ times. A state = reference children + private fields (endpoints map, per-child state/closed, inhibit flag, picker contents); distinct states are the non-trivial cases")
+	r.Rule(P, "leg b (balancer/endpointsharding): breadth-first over ALL event histories up to the depth bound on a fresh real endpointsharding balancer (stub child policies, fake recording channel, synctest bubble run to quiescence after every event). Alphabet: resolver update with every subset of 3 (quick) / 4 (thorough) endpoints (incl. the empty list), child(e).UpdateState(CONNECTING|READY|TRANSIENT_FAILURE|IDLE) with a fresh tagged picker for the most recent child of each endpoint (also after that child was removed), resolver error, ExitIdle. Two scenarios: DisableAutoReconnect (IDLE children stay IDLE) and automatic reconnect (an IDLE child is told to ExitIdle on a goroutine and reports CONNECTING). Every history is re-run for EVERY vector of randIntN values requested during its last event (endpoint rotation and the start index of every picker built). At every state the balancer pushes to the channel: state = precedence rule on the reference multiset; then k = 3n picks on the new picker (n = children in the aggregate state): every pick is delegated to the latest picker of such a child and in EVERY window of consecutive picks each such child is used ⌊k/n⌋ or ⌈k/n⌉ times. A state = reference children + private fields (endpoints map, per-child state/closed, inhibit flag, picker contents); distinct states are the non-trivial cases")
 	r.Assume(P, "leg b: stub children behave like pick_first in that they report a state synchronously from their first resolver update (a child that never reported has no state in the sense of the statement); events are delivered one at a time")
 
 	old := randIntN
 	randIntN = c35bSeam
 	defer func() { randIntN = old }()
+	c35bEps = c35bAllEps[:r.Pick(3, 4)]
+	r.Set(P, "endpointsharding_endpoints", len(c35bEps))
 	ops := c35bOps()
 	names := make([]string, len(ops))
 	for i, o := range ops {
